@@ -404,6 +404,28 @@ def check(ctx):
         else:
             r6.bad(V(r6.id, gid, "mapped-names-still-declared", "%s never removes mapped names from the declared types: a mapped project type is still emitted" % short_path(gid),
                      P.fns[gid].file, P.fns[gid].line))
+    # ... "and nothing else": the predicate that narrows the declared set asks the mapping table only.  A second membership test in the same
+    # predicate (names "behind" a mapped type, names matching a pattern) removes declarations of types the mapping does not name
+    seen_pred = set()
+    for gid in gens:
+        for fid in P.reachable([gid]):
+            f = P.fns[fid]
+            for c in f.calls:
+                if c.bb not in f.reach_blocks or short_path(c.path) not in ("HashMap::retain", "HashMap::extract_if") or "StructInfo" not in " ".join(c.generics + [c.self_ty or ""]) or len(c.args) < 2:
+                    continue
+                o = f.origin(c.args[1])
+                cid = o[1].get("closure") if o[0] == "aggr" and isinstance(o[1], dict) else None
+                if cid not in P.fns or cid in seen_pred:
+                    continue
+                seen_pred.add(cid)
+                other = sorted({short_path(cc.path) for cc in P.fns[cid].calls if cc.bb in P.fns[cid].reach_blocks
+                                and cc.name in ("contains", "contains_key", "get", "any", "all", "starts_with", "ends_with", "binary_search", "find", "position")
+                                and not (cc.name in ("contains_key", "get") and cc.generics[:2] == ["std::string::String", "std::string::String"] and "HashMap" in cc.path)})
+                if other:
+                    r6.bad(V(r6.id, fid, "declared-set-narrowed-by:%s" % ",".join(other), "the predicate that removes mapped names from the declared set also asks %s: "
+                             "types the mapping does not name lose their declaration" % other, c.file, c.line))
+                else:
+                    r6.ok("%s: the narrowing predicate asks the mapping table only" % short_path(fid))
     from c07 import check_emitter_reads_used_set
     check_emitter_reads_used_set(P, r6)
     for v_ in r6.violations:
